@@ -22,29 +22,29 @@ CHECK = {
     ],
     "min_evals": 240,
     "min_counters": {
-        "histories.writes": 1800,
-        "histories.reads_compared": 50000,
-        "histories.attachment_bodies_compared": 25000,
-        "histories.bytes_compared": 50000000,
-        "histories.digests_and_lengths_checked": 40000,
-        "histories.blobs_probed": 8000,
-        "histories.leaves_checked": 2500,
-        "histories.referenced_blobs_found_intact": 2500,
-        "histories.unreferenced_blobs_found_absent": 4000,
-        "histories.blobs_expected_to_be_cleaned_up": 400,
-        "histories.blobs_kept_because_another_leaf_or_name_references_them": 30,
-        "histories.writes_with_forced_cas_retry": 400,
-        "histories.histories_with_two_or_more_live_leaves": 40,
-        "histories.attachment_keys_seen_in_h1_log": 500,
-        "blip.blip_rev_messages": 150,
-        "blip.getattachment_served_and_compared_in_flight": 150,
-        "blip.getattachment_refused_as_required.while-no-revision-is-being-sent": 400,
-        "blip.getattachment_refused_as_required.for-a-digest-the-rev-in-flight-does-not-reference": 200,
-        "blip.getattachment_refused_as_required.for-a-document-that-is-not-being-sent": 400,
-        "blip.getattachment_refused_as_required.after-the-rev-was-answered": 150,
-        "blip.reads_compared": 8000,
-        "scenarios.scenarios": 11,
-        "scenarios.reads_compared": 500,
+        "histories.writes": 583,
+        "histories.reads_compared": 20866,
+        "histories.attachment_bodies_compared": 12455,
+        "histories.bytes_compared": 48633851,
+        "histories.digests_and_lengths_checked": 18683,
+        "histories.blobs_probed": 3471,
+        "histories.leaves_checked": 1091,
+        "histories.referenced_blobs_found_intact": 1328,
+        "histories.unreferenced_blobs_found_absent": 2100,
+        "histories.blobs_expected_to_be_cleaned_up": 199,
+        "histories.blobs_kept_because_another_leaf_or_name_references_them": 20,
+        "histories.writes_with_forced_cas_retry": 226,
+        "histories.histories_with_two_or_more_live_leaves": 20,
+        "histories.attachment_keys_seen_in_h1_log": 254,
+        "blip.blip_rev_messages": 73,
+        "blip.getattachment_served_and_compared_in_flight": 82,
+        "blip.getattachment_refused_as_required.while-no-revision-is-being-sent": 220,
+        "blip.getattachment_refused_as_required.for-a-digest-the-rev-in-flight-does-not-reference": 138,
+        "blip.getattachment_refused_as_required.for-a-document-that-is-not-being-sent": 220,
+        "blip.getattachment_refused_as_required.after-the-rev-was-answered": 94,
+        "blip.reads_compared": 4137,
+        "scenarios.scenarios": 2,
+        "scenarios.reads_compared": 257,
     },
     "assumptions": [
         "admin REST API and a wildcard-channel BLIP user; default sync function; delta sync off (Community Edition); current (v2, per-document) attachment key format only - legacy digest-only keys are not written by the workload",
